@@ -2215,7 +2215,7 @@ class Verifier(Engine):
         self.curkey = key
         self.max_unfold = int(fs.options.get('unfold', 5))
         f = self.func(key)
-        modes = ['accept', 'reject'] if fs.exits_iff is not None else ['accept']
+        modes = ['accept', 'reject'] if fs.exits_iff is not None and fs.exits_iff.text.strip() != 'false' else ['accept']      # `exits_iff false`: never exits, nothing to reject
         info = {'function': f.qual, 'mangled': key, 'modes': {}, 'rules': f.rules}
         self.static_failures = getattr(self, 'static_failures', [])
         self.bounded = getattr(self, 'bounded', [])
@@ -2281,7 +2281,7 @@ class Verifier(Engine):
             nret = 0; nexit = 0
             self.reach = getattr(self, 'reach', [])
             if mode == 'accept':
-                self.reach.append((self.prefix, [list(p.pc) for p, status, rv in paths if status != 'exit'][:6]))
+                self.reach.append((self.prefix, [list(p.pc) for p, status, rv in paths if status != 'exit'][:64]))
             for p, status, rv in paths:
                 if status == 'exit':
                     nexit += 1
@@ -2294,7 +2294,10 @@ class Verifier(Engine):
                 if mode == 'reject':
                     if not getattr(self, 'fallback_unroll', None):
                         p.scope = None
-                        for u in fs.uses_post: self.use_lemma(u, p)       # lemma facts may be needed to see that the path is infeasible
+                        for u in fs.uses_post:       # lemma facts may be needed to see that the path is infeasible
+                            mentioned = set(n_ for a_ in list(u.args) + ([u.when] if getattr(u, 'when', None) is not None else []) for n_ in SP.names_in(a_))
+                            if 'result' in mentioned: continue      # there is no result to speak about on this path
+                            self.use_lemma(u, p)
                     self.oblige(p, z3.BoolVal(False), 'no_normal_return', 'a meaningless request (%s) never returns normally' % fs.exits_iff.text)
                     continue
                 p.scope = None
